@@ -140,6 +140,7 @@ type c06Row struct {
 		Rotated            []string
 	}
 	Accept, Endpoint, Undet bool
+	Entropy, Keymin         int
 }
 
 func tableN() int {
@@ -175,6 +176,11 @@ func c06One(rep *TReport, raw json.RawMessage, r c06Row, rnd *rand.Rand) {
 	w := NewWorld(cfg)
 	w.Rec.Keep = false
 	w.Config.GlobalSecret = c06Secrets["S1"]
+	w.Config.TokenEntropy = r.Entropy
+	keymin := r.Keymin
+	if keymin == 0 {
+		keymin = 32
+	}
 	full := []string{"openid", "offline", "a"}
 	for i := 0; i < 4; i++ {
 		w.Exec(1, Op{Op: "authorize", Client: "A", RType: "code", Scopes: full, Grant: full, Redir: "sent", Pkce: "none"})
@@ -195,8 +201,8 @@ func c06One(rep *TReport, raw json.RawMessage, r c06Row, rnd *rand.Rand) {
 				rep.Mismatches = append(rep.Mismatches, TMismatch{Row: raw, Field: "minted_value_repeats", Exp: "fresh", Obs: t})
 			}
 			_, key, _ := splitCred(t)
-			if len(key) < 32 {
-				rep.Mismatches = append(rep.Mismatches, TMismatch{Row: raw, Field: "entropy_below_configured", Exp: 32, Obs: len(key)})
+			if len(key) < keymin {
+				rep.Mismatches = append(rep.Mismatches, TMismatch{Row: raw, Field: "entropy_below_configured", Exp: keymin, Obs: len(key)})
 			}
 		}
 	}
